@@ -46,9 +46,13 @@ func (sc *scenario) build(faults map[int]faultKind) (*rig, *fakeCAS, error) {
 	if sc.cfg.CaseInsensitive {
 		// On a case insensitive file system two names that differ only
 		// by case are duplicates: the directory cannot be presented.
+		// That cannot be repaired by storing a blob.
 		for t := range sc.spec.Dirs {
-			if badTmpl[t] == "" && sc.spec.Dirs[t].caseCollision() {
-				badTmpl[t] = "case_collision"
+			if sc.spec.Dirs[t].caseCollision() {
+				r.caseBad[t] = true
+				if badTmpl[t] == "" {
+					badTmpl[t] = "case_collision"
+				}
 			}
 		}
 	}
